@@ -7,6 +7,7 @@ Two implementation-side observations on precondition-satisfying, boundary-direct
 The Lean side: Props/C11.lean collects, from the models of the other properties and Model/C11.lean,
 the corollaries  precondition -> no Fault.oob.
 """
+from vcommon import pure
 import os
 
 os.environ['NUMBA_BOUNDSCHECK'] = '1'   # must precede the first numba import in this process
@@ -157,7 +158,7 @@ def k_bitpacked(R, rng):
         words = Rec(rng.integers(-2 ** 31, 2 ** 31, (N, 3)).astype(np.int32), 'intdata', log)
         po = Rec(np.empty((N, 3), np.float32), 'posout', log)
         vo = Rec(np.empty((N, 3), np.float32), 'velout', log)
-        R.run('bitpacked._unpack_rvint.py_func', dict(N=N), lambda: bitpacked._unpack_rvint.py_func(words, 500.0, po, vo),
+        R.run('bitpacked._unpack_rvint.py_func', dict(N=N), lambda: pure(bitpacked._unpack_rvint)(words, 500.0, po, vo),
               nontrivial=N > 0)
         wr = sorted(set(k for (t, n, k) in [e[:3] for e in log if e[0] == 'w'] if n == 'posout'))
         exp = [(i, c) for i in range(N) for c in range(3)]
@@ -362,7 +363,7 @@ def k_power(R, rng, thorough):
             drv_lines.append('interp %d %d %d %d %s' % (npts, npts, le, ge, '%d/%d' % (f.numerator, f.denominator)))
             log = []
             try:
-                ps.linear_interp.py_func(xd, Rec(x, 'x', log), Rec(y, 'y', log))
+                pure(ps.linear_interp)(xd, Rec(x, 'x', log), Rec(y, 'y', log))
                 impl = 'ok ' + ','.join('%s%d' % (e[1], e[2][0]) for e in log if e[0] == 'r')
             except IndexError:
                 impl = 'err oob'
